@@ -34,7 +34,11 @@ func (x *Exec) intercept(st *State, fn *ssa.Function, args []*Term) ([]Outcome, 
 		c.declare(name, []*Sort{args[0].Sort}, c.Iface)
 		return ret(c.mk(&Term{Op: "box", Name: name, Args: []*Term{args[0]}, Sort: c.Iface}))
 	case "Eq":
-		return ret(x.specEq(st, args[0], args[1], 0))
+		r := x.specEq(st, args[0], args[1], 0)
+		if os.Getenv("GOVC_DEBUG") != "" {
+			fmt.Fprintf(os.Stderr, "Eq(%s , %s) = %s\n", c.Show(args[0]), c.Show(args[1]), c.Show(r))
+		}
+		return ret(r)
 	case "Same":
 		a, b := x.unboxAny(args[0]), x.unboxAny(args[1])
 		if a.Sort != b.Sort {
@@ -55,7 +59,44 @@ func (x *Exec) intercept(st *State, fn *ssa.Function, args []*Term) ([]Outcome, 
 		return ret(v)
 	case "EqT", "EqTP":
 		return x.eqT(st, args[0], args[1], o.Name() == "EqTP"), true
-	case "Old", "AtEntry":
+	case "And", "Or":
+		// logical connectives of specifications (option logical): the second operand is evaluated under the
+		// assumption that decides it (a for And, !a for Or), merged into one term; no path is forked.
+		a := x.unboxAny(args[0])
+		isAnd := o.Name() == "And"
+		hyp := a
+		if !isAnd {
+			hyp = c.Not(a)
+		}
+		hyp = x.simp(st, hyp)
+		if hyp.IsFalse() {
+			return ret(c.BoolLit(!isAnd))
+		}
+		s2 := st.clone()
+		s2.trace = nil
+		x.assume(s2, hyp)
+		if s2.dead {
+			return ret(c.BoolLit(!isAnd))
+		}
+		x.mergedDepth++
+		outs := x.applyFn(s2.clone(), x.unboxAny(args[1]), nil, false)
+		x.mergedDepth--
+		v, def, facts := x.mergeOuts(s2, outs, c.Bool)
+		if v == nil {
+			return abortOut(st, "%s(): operand outside the supported subset", o.Name()), true
+		}
+		for id, cv := range s2.cells {
+			if _, ok := st.cells[id]; !ok {
+				st.cells[id] = cv
+			}
+		}
+		x.assumeFact(st, c.Implies(hyp, facts))
+		b := c.And(def, v)
+		if isAnd {
+			return ret(c.And(a, b))
+		}
+		return ret(c.Or(a, b))
+	case "Old", "AtEntry", "OldBool", "OldInt":
 		var base *State
 		if o.Name() == "AtEntry" {
 			if x.curLoop == nil || x.curLoop.entrySt == nil {
@@ -78,8 +119,29 @@ func (x *Exec) intercept(st *State, fn *ssa.Function, args []*Term) ([]Outcome, 
 		es.facts = append([]*Term(nil), st.facts...)
 		es.known = st.known
 		es.trace = nil
-		outs := x.applyFn(es, x.unboxAny(args[0]), nil, false)
-		v, _, facts := x.mergeOuts(es, outs, c.Iface)
+		outs := x.applyFn(es.clone(), x.unboxAny(args[0]), nil, false)
+		if os.Getenv("GOVC_DEBUG") != "" {
+			fmt.Fprintf(os.Stderr, "Old thunk: %s\n", c.Show(x.unboxAny(args[0])))
+			for k, v := range es.known {
+				fmt.Fprintf(os.Stderr, "   known %v: %s\n", v, c.Show(k))
+			}
+			for _, oo := range outs {
+				fmt.Fprintf(os.Stderr, "   out val=%s pcExtra=%d\n", c.Show(oo.val), len(oo.st.pc)-len(st.pc))
+			}
+			for _, oo := range outs {
+				fmt.Fprintf(os.Stderr, "Old outcome kind=%d reason=%s val=%v\n", oo.kind, oo.reason, oo.val != nil)
+				if oo.kind == OPanic {
+					fmt.Fprintf(os.Stderr, "   panic %s\n", c.Show(oo.val))
+				}
+			}
+		}
+		rsort := c.Iface
+		if o.Name() == "OldBool" {
+			rsort = c.Bool
+		} else if o.Name() == "OldInt" {
+			rsort = c.Int
+		}
+		v, _, facts := x.mergeOuts(es, outs, rsort)
 		if v == nil {
 			return abortOut(st, "Old(): expression outside the supported subset"), true
 		}
@@ -179,6 +241,9 @@ func (x *Exec) specEq(st *State, a, b *Term, depth int) *Term {
 		return x.specEq(st, a, b.Args[0], depth)
 	}
 	if a.Op == "box" && b.Op == "box" {
+		if os.Getenv("GOVC_DEBUG") != "" {
+			fmt.Fprintf(os.Stderr, "specEq: different dynamic types %s vs %s\n", a.Name, b.Name)
+		}
 		return c.False // different dynamic types
 	}
 	if a.Op == "ite" && a.Sort == c.Iface {
@@ -339,6 +404,11 @@ func (x *Exec) mergeOuts(st *State, outs []Outcome, resSort *Sort) (*Term, *Term
 	for i := len(brs) - 2; i >= 0; i-- {
 		val = c.Ite(brs[i].cond, brs[i].v, val)
 	}
+	if len(brs) == len(outs) {
+		// every path returned: the path conditions partition the state space (each fork is cond / not cond,
+		// pruned paths are infeasible), so the value is defined everywhere
+		def = c.True
+	}
 	return val, def, facts
 }
 
@@ -376,6 +446,9 @@ func (x *Exec) quantifier(st *State, f *Term, universal bool) (*Term, error) {
 		return nil, fmt.Errorf("quantifier body outside the supported subset")
 	}
 	guard = append(guard, x.takeFacts(mark))
+	if os.Getenv("GOVC_DEBUG") != "" {
+		fmt.Fprintf(os.Stderr, "quantifier body: def=%s body=%s\n", c.Show(def), c.Show(body))
+	}
 	// a body that panics counts as false
 	body = c.And(def, body)
 	if universal {
@@ -479,6 +552,24 @@ func (x *Exec) trusted(st *State, fn *ssa.Function, name string, args []*Term) (
 		return x.jsonMarshal(st, fn, args), true
 	case name == "encoding/json.Unmarshal":
 		return x.jsonUnmarshal(st, fn, args), true
+	case name == "math/bits.OnesCount32" || name == "math/bits.OnesCount64" || name == "math/bits.OnesCount" || name == "math/bits.OnesCount8" || name == "math/bits.OnesCount16":
+		// definition of population count: the number of one bits (mathematical int)
+		a := args[0]
+		if a.Sort.Kind != KBV {
+			return nil, false
+		}
+		w := a.Sort.Width
+		sum := c.IntLit(0)
+		for i := 0; i < w; i++ {
+			var bit *Term
+			if v, ok := a.BVVal(); ok {
+				bit = c.BoolLit(v>>uint(i)&1 == 1)
+			} else {
+				bit = c.mk(&Term{Op: "bvbit", Idx: i, Args: []*Term{a}, Sort: c.Bool})
+			}
+			sum = c.Arith("+", sum, c.Ite(bit, c.IntLit(1), c.IntLit(0)))
+		}
+		return ret(sum)
 	case name == "runtime/debug.Stack":
 		x.noteTrusted("runtime/debug.Stack: returns some byte slice, no other effect")
 		v := c.Fresh("stack", c.Slice)
